@@ -48,7 +48,24 @@ fn mk_operand(base: u64, p: u32, ksel: u16, pat: u8, seed: u64, neg: bool, exp: 
 }
 
 fn case_strategy(base: u64, max_p: u32) -> impl Strategy<Value = Case> {
-    (precision(max_p), 0u8..6, (any::<u16>(), 0u8..9, any::<u64>(), any::<bool>()), any::<u16>(), (any::<u16>(), 0u8..9, any::<u64>(), any::<bool>()), any::<u16>()).prop_map(
+    case_strategy_with(base, precision(max_p))
+}
+
+/// precisions on both sides of every power of two up to 2^12 bits (the working precision, the
+/// number of series terms and the argument reduction are functions of the bit length of p)
+fn high_precision(base: u64) -> BoxedStrategy<u32> {
+    let bits: [u32; 20] = [63, 64, 65, 127, 128, 129, 255, 256, 300, 511, 512, 700, 1023, 1024, 1100, 1500, 2047, 2048, 2100, 3000];
+    let lb = (base as f64).log2();
+    (0usize..bits.len(), any::<bool>()).prop_map(move |(i, digits)| {
+        // the same number either as the precision in digits (capped at 4100 bits) or as its size in bits
+        let b = bits[i];
+        let p = if digits && (b as f64 * lb) <= 4100.0 { b } else { (b as f64 / lb).round() as u32 };
+        p.max(12)
+    }).boxed()
+}
+
+fn case_strategy_with(base: u64, prec: BoxedStrategy<u32>) -> impl Strategy<Value = Case> {
+    (prec, 0u8..6, (any::<u16>(), 0u8..9, any::<u64>(), any::<bool>()), any::<u16>(), (any::<u16>(), 0u8..9, any::<u64>(), any::<bool>()), any::<u16>()).prop_map(
         move |(p, f, (ka, pa, sa, na), cls, (kb, pb, sb, nb), nsel)| {
             let pu = p as i64;
             // magnitude classes: value = sig · B^exp with sig of <= p digits; top digit position t = exp + digits - 1
@@ -690,10 +707,16 @@ fn main() {
     oracle_selfcheck();
     let mut ck = Check::new(
         "C11",
-        "exp, exp_m1, ln, ln_1p, powi, powf (Context methods; the FBig methods must agree with them) in bases {2,3,10,16,36} × 6 modes, precisions 1..60 (thorough: to 400), arguments with <= p digits placed by magnitude class (B^-1000 … B^5 for exp, B^±1000 for ln, next to 0, next to 1 (1 ± k ulp), next to -1 for ln_1p, bases 1 ± k ulp with integer exponents to ±2^17 for powi, exact points); oracle: rigorous midpoint-radius ball arithmetic enclosure of the true value with outward rounding and a 4-rung Ziv precision ladder — violation only if the whole enclosure is >= 1 ulp from the result, pass only if the whole enclosure is < 1 ulp away, otherwise inconclusive; exact rational truth (trivial points, small powi, perfect-power powf) compared exactly; Exact flag on an irrational result is a violation. Non-trivial: true value irrational or judged by enclosure; distinct by case digest.",
+        "exp, exp_m1, ln, ln_1p, powi, powf (Context methods; the FBig methods must agree with them) in bases {2,3,10,16,36} × 6 modes, precisions 1..60 (thorough: to 400) plus precisions on both sides of every power of two up to 2^12 bits (63 … 3000 bits, in bases 2, 3, 10, 16), arguments with <= p digits placed by magnitude class (B^-1000 … B^5 for exp, B^±1000 for ln, next to 0, next to 1 (1 ± k ulp), next to -1 for ln_1p, bases 1 ± k ulp with integer exponents to ±2^17 for powi, exact points); oracle: rigorous midpoint-radius ball arithmetic enclosure of the true value with outward rounding and a 4-rung Ziv precision ladder — violation only if the whole enclosure is >= 1 ulp from the result, pass only if the whole enclosure is < 1 ulp away, otherwise inconclusive; exact rational truth (trivial points, small powi, perfect-power powf) compared exactly; Exact flag on an irrational result is a violation. Non-trivial: true value irrational or judged by enclosure; distinct by case digest.",
     );
     let maxp: u32 = if ck.thorough() { 400 } else { 60 };
     subs!(ck, maxp, 2 "2", 3 "3", 10 "10", 16 "16", 36 "36");
+    // high precisions: few cases, each expensive (dashu at p bits, the enclosure at up to 4p)
+    ck.sub("highp_b2_Zero", (160, 3_000), || case_strategy_with(2, high_precision(2)), run::<mode::Zero, 2>);
+    ck.sub("highp_b2_HalfEven", (160, 3_000), || case_strategy_with(2, high_precision(2)), run::<mode::HalfEven, 2>);
+    ck.sub("highp_b3_Up", (100, 2_000), || case_strategy_with(3, high_precision(3)), run::<mode::Up, 3>);
+    ck.sub("highp_b10_HalfAway", (100, 2_000), || case_strategy_with(10, high_precision(10)), run::<mode::HalfAway, 10>);
+    ck.sub("highp_b16_Down", (100, 2_000), || case_strategy_with(16, high_precision(16)), run::<mode::Down, 16>);
     ck.sub("unlimited_b10_HalfEven", (600, 6_000), || case_strategy(10, 20), unlimited::<mode::HalfEven, 10>);
     ck.sub("unlimited_b2_Zero", (600, 6_000), || case_strategy(2, 20), unlimited::<mode::Zero, 2>);
     ck.assume("the ball arithmetic kernel in dv/src/ball.rs (outward rounding, Taylor tail bounds, |ln(1+t)-t| <= t^2); irrationality of exp/ln at non-trivial rational points (Lindemann–Weierstrass) and of non-perfect-power roots");
